@@ -3,8 +3,8 @@
      Call c a          lookup / install placeholder / expiry replacement (+ move_to_end) / hit (move_to_end, optional
                        checkpoint), `async with lock` up to its first suspension; on the uncontended fast path also
                        the re-read of the entry and the miss bookkeeping up to the call of the wrapped function
-     CallX c a         the same call issued inside an already cancelled cancel scope: Lock.acquire() raises at
-                       checkpoint_if_cancelled (free lock) or the queued waiter is cancelled at once (contended lock)
+     CallX c a         the same call issued inside an already cancelled cancel scope: Lock.acquire() suspends in its
+                       leading checkpoint_if_cancelled and then raises, without ever looking at the lock
      Resume c          the wake-up of blocked caller c runs: lock acquired -> re-read (KeyError possible) -> miss
                        bookkeeping / eviction -> wrapped function entered;  wrapped function finished -> store,
                        release, return;  hit checkpoint finished;  cancellation at the lock entry delivered
@@ -389,20 +389,13 @@ Definition acquire (cf : cfg) (s : st) (c : cid) (k : key) (l : lid) : st * res 
   | _ => (set_phase s1 c CIdle, RLockErr)
   end.
 
-(* the same inside an already cancelled scope: a free lock is not even taken (checkpoint_if_cancelled suspends and
-   then raises); on a contended lock the caller queues and its future is cancelled by the scope at once *)
+(* the same inside an already cancelled scope: Lock.acquire() awaits checkpoint_if_cancelled() FIRST (/repo c2fb7fb,
+   finding F53), before it looks at the lock: the caller suspends there, whatever the state of the lock, and the
+   CancelledError is on its way; the lock is never touched and the caller never becomes a queued waiter.  (Before
+   that fix a caller that found the lock busy queued up and its future was cancelled by the scope.)  An uncounted
+   placeholder of its key stays behind. *)
 Definition acquire_x (cf : cfg) (s : st) (c : cid) (k : key) (l : lid) : st * res :=
-  match Lock.owner (locks s l), Lock.waiters (locks s l) with
-  | None, [] =>
-      (* the call is going to be aborted here; an uncounted placeholder stays behind *)
-      (set_phase (set_fl s (fl_or_uncounted (fl s) (uncounted_at k (dict s)))) c (CEntryCk k), RBlocked)
-  | _, _ =>
-      let '(s1, r) := lock_do (set_phase s c (CLockWait k l (now s) (cur s))) l (Lock.AcqBegin c) in
-      match r with
-      | Lock.RBlocked => let '(s2, _) := lock_do s1 l (Lock.Cancel c) in (s2, RBlocked)
-      | _ => (set_phase s1 c CIdle, RLockErr)
-      end
-  end.
+  (set_phase (set_fl s (fl_or_uncounted (fl s) (uncounted_at k (dict s)))) c (CEntryCk k), RBlocked).
 
 Definition is_zero_max (cf : cfg) : bool :=
   match maxsize cf with Some 0 => true | _ => false end.
